@@ -376,7 +376,7 @@ def sink_storage(tree, wl: S.WL):
     return rec(list(tree), set(), _einsum_of(tree) if _n_computes(tree) == 1 else None)
 
 
-def peak_occupancy(tree, arch: S.Arch, wl: S.WL, persistent=()):
+def peak_occupancy(tree, arch: S.Arch, wl: S.WL, persistent=(), full_iteration=False):
     """Execution-time peak occupancy (bits) per memory of a possibly fused LoopTree.
 
     Liveness rules (property C06 / the LoopTree documentation):
@@ -458,7 +458,11 @@ def peak_occupancy(tree, arch: S.Arch, wl: S.WL, persistent=()):
         if n[0] == "T":
             var, ts = n[1], n[2]
             lo, size = ranges[var]
-            for o in range(lo, lo + size, ts):
+            # with a perfectly factorising loop every iteration allocates and frees the
+            # same amounts, and everything allocated inside is freed before the next
+            # iteration: executing one iteration gives the peak (exact shortcut)
+            origins = [lo] if (size % ts == 0 and not full_iteration) else range(lo, lo + size, ts)
+            for o in origins:
                 r2 = dict(ranges)
                 r2[var] = (o, min(ts, lo + size - o))
                 run(nodes, i + 1, r2, held, suppressed, einsum)
